@@ -21,7 +21,10 @@ Inductive case :=
        (pos : list (Z * Z * Z)) (sup : list (Z * Z)) (attr_lens : list nat) (caller_after : list (Z * Z))
 (* the exported predicates on their own: Triangle{0,1,2}.InsideCircumcircle(p, [a,b,c]),
    Triangle{0,1,2}.CounterClockwise([a,b,c]) and Triangle(t).Edges() as the implementation answered *)
-| CPred (a b c p : Z * Z) (inside ccw : bool) (t : nat * nat * nat) (es : list (nat * nat)).
+| CPred (a b c p : Z * Z) (inside ccw : bool) (t : nat * nat * nat) (es : list (nat * nat))
+(* a rung of the size ladder (1100-4200 points): the triangles are judged by the harness' exact integer
+   oracle (the certified checker is too expensive here); Coq sees vertex identity only *)
+| CBig (pts : list (Z * Z)) (pos : list (Z * Z * Z)) (attr_lens : list nat) (caller_after : list (Z * Z)).
 
 Definition qpts (pts : list (Z * Z)) : list pt := map (fun p => (inject_Z (fst p), inject_Z (snd p))) pts.
 Definition tri_inb (t : tri) (l : list tri) : bool := existsb (tri_eqb t) l.
@@ -64,6 +67,7 @@ Definition centre (a b c : pt) : pt :=
 
 Definition corr_ok (c : case) : bool :=
   match c with
+  | CBig _ _ _ _ => true
   | CPred a b c p inside ccw t es =>
       (* InsideCircumcircle is compared where the algorithm uses it — on clockwise triangles (all values of
          the determinant, zero included); what it answers for the other winding is not part of any contract.
@@ -107,6 +111,8 @@ Fixpoint same_ptsb (pts after : list (Z * Z)) : bool :=
    the triangle areas add up to the area of the convex hull (exact in Q) *)
 Definition prop_ok (c : case) : bool :=
   match c with
+  | CBig pts pos alens after =>
+      pos_okb pts pos && forallb (Nat.eqb (length pts)) alens && same_ptsb pts after
   | CPred a b c p inside ccw _ _ =>
       (* what the algorithm relies on: for a clockwise triangle the answer is "strictly inside the circle",
          judged by distances to the centre; the winding test is the sign of twice the signed area.  On the
